@@ -16,7 +16,7 @@ import (
 const (
 	c01VariantsQuick    = 6
 	c01VariantsThorough = 24
-	c01RandomQuick      = 40000
+	c01RandomQuick      = 160000
 	c01RandomThorough   = 600000
 )
 
